@@ -793,3 +793,5 @@ _run_r1_5 = run
 def run(res, facts, tier):
     _run_r1_5(res, facts, tier)
     r1c_derived(res, facts)
+    from . import c04_cdata
+    c04_cdata.run(res, facts, tier)
